@@ -1,0 +1,13 @@
+//go:build verif
+
+package segmenter
+
+// VerifWordBoundaries reports, for each position 0..len(text), whether the
+// segmenter flagged a word boundary there.
+func (seg *Segmenter) VerifWordBoundaries() []bool {
+	out := make([]bool, len(seg.attributes))
+	for i, a := range seg.attributes {
+		out[i] = a&wordBoundary != 0
+	}
+	return out
+}
